@@ -9,7 +9,8 @@ use tvh_common::*;
 pub fn replay(args: &Args) {
     let cases = read_ndjson(args.req("in"));
     let mut rep = Report::new(args.get("prop").unwrap_or("C20"), args.req("out"));
-    for v in &cases {
+    for v in cases {
+        let v = &v;
         match get_str(v, "op") {
             "half_life" => {
                 rep.cases += 1;
